@@ -35,7 +35,7 @@ def families(tier, rng):
 
 def tier2(tier, rng):
     th = tier == "thorough"
-    for (h, w) in [(1, 4), (2, 2), (2, 3), (2, 4), (3, 3)]:
+    for (h, w) in [(1, 4), (2, 2), (2, 3), (1, 5)]:
         parts = L.sample(rng, L.region_partitions(h, w, min_size=4), 12 if th else 3)
         for blocks in parts:
             yield {"h": h, "w": w, "blocks": blocks}
